@@ -71,6 +71,9 @@ def reportLine (w : World) : String :=
   let linkBad := w.registry.filter fun sid =>
     !(decide ((w.sock sid).tr < w.trs.size) && decide ((w.tr (w.sock sid).tr).rs ≠ .closed))
   let parts := if linkBad.isEmpty then parts else parts ++ [s!"LINK!:{showInts linkBad}"]
+  -- the conclusion of `c07_every_due_timer_fired_unless_fuel_ran_out`, evaluated in every world the correspondence
+  -- visits: no pending timer is due at or before the clock (the harness never prints this token)
+  let parts := if (earliest (dueTimers w) w.now).isNone then parts else parts ++ ["LATE!"]
   " ".intercalate parts
 
 /-- the harness's canonical order for the events of a server shutdown -/
